@@ -54,6 +54,7 @@ structure Blk where
   state : String := "0"
   env : Env Float := { tol := 1e-8, ineqTol := 1e-15, minRel := 1e-23 }
   minSS : Float := 1e-27
+  tkx : Float := 298.15
   iterations : Nat := 1
   npp : Nat := 0
   qs : Array QLine := #[]
@@ -162,9 +163,13 @@ def doS (b : Blk) (w : Array String) : List String :=
      else [])
   let sumFr := sumL (qs.map (·.frac))
   let gp := guggParams icase.toNat p0 p1 (tk * (R_KJ_DEG_MOL : Float))
+  let ag0 := fx (w.getD 12 "")
+  let ag1 := fx (w.getD 13 "")
   let gl := match gp with
     | some (m0, m1) => if icase ≥ 0 then
-        [vline b "T" "ss-a0" ss (close 1e-13 1e-300 a0 m0) a0 m0, vline b "T" "ss-a1" ss (close 1e-13 1e-300 a1 m1) a1 m1] else []
+        -- a0/a1 as defined, or as `ss_prep` rescaled them for the current temperature
+        [vline b "T" "ss-a0" ss (close 1e-12 1e-300 a0 m0 || close 1e-12 1e-300 a0 (a0AtT ag0 b.tkx)) a0 m0,
+         vline b "T" "ss-a1" ss (close 1e-12 1e-300 a1 m1 || close 1e-12 1e-300 a1 (a0AtT ag1 b.tkx)) a1 m1] else []
     | none => []
   per ++ gl ++
   [vline b "T" "ss-total" ss (close 1e-14 1e-300 total tot) total tot,
@@ -261,7 +266,7 @@ partial def loop (h : IO.FS.Stream) (out : IO.FS.Stream) (b : Blk) (p : Probe) :
   | "B" => loop h out { id := w.getD 1 "?", k := w.getD 2 "?" } p
   | "G" =>
     let env : Env Float := { tol := fx (w.getD 8 ""), ineqTol := fx (w.getD 9 ""), minRel := fx (w.getD 10 "") }
-    loop h out { b with state := w.getD 1 "0", env := env, minSS := fx (w.getD 12 ""), iterations := nat (w.getD 6 "1") } p
+    loop h out { b with state := w.getD 1 "0", env := env, minSS := fx (w.getD 12 ""), tkx := fx (w.getD 13 ""), iterations := nat (w.getD 6 "1") } p
   | "P" =>
     for l in doP b w do out.putStrLn l
     loop h out { b with npp := b.npp + 1 } p
